@@ -51,6 +51,13 @@ def body(stmts):
         return body(rest)
     if isinstance(s, ast.If):
         return f'(if {cond(s.test)} then {body(s.body + rest)} else {body(s.orelse + rest)})'
+    if isinstance(s, ast.Try):
+        # try: signature = inspect.signature(...)  except (ValueError, TypeError): <handler>
+        ok = (len(s.body) == 1 and isinstance(s.body[0], ast.Assign) and ast.unparse(s.body[0].targets[0]) == 'signature'
+              and 'inspect.signature' in ast.unparse(s.body[0].value) and len(s.handlers) == 1 and not s.orelse and not s.finalbody)
+        if not ok:
+            raise Unsupported(f'try statement (line {s.lineno})')
+        return f'(if sig_unavailable b then {body(s.handlers[0].body + rest)} else {body(rest)})'
     if isinstance(s, ast.Break):
         return f'SBreak {state()}'
     if isinstance(s, ast.Continue):
